@@ -519,7 +519,7 @@ def r2b_accumulators(ctx):
                             ast.unparse(reassigned)[:160])
                 elif grown is not None:
                     ctx.ok('R2.accumulate', site(f, lp), f'{nm} grown by {ast.unparse(grown)[:80]}')
-    ctx.need('R2.accumulate', 2, 'convert_degree.new_targets, convert_back_design_band.design_bands')
+    ctx.need('R2.accumulate', 1, 'convert_degree.new_targets (convert_back_design_band.design_bands is a comprehension in the canonical model)')
 
 
 
